@@ -34,6 +34,16 @@ pub fn make_cell(rng: &mut Rng, layout: u64) -> Cell {
     let meshes: [TriMesh; 6] = std::array::from_fn(|_| box_mesh(sz, sz, sz, 1));
     let mut env: Vec<CollisionBody> = Vec::new();
     let mid = p0.translation.vector + dir * hop * (nsteps as f64 - 1.0) * 0.5;
+    if layout % 5 == 4 {
+        // free space, the stroke passes the wrist singularity (J5 = 0) a millimetre aside: J4/J6 have to swing within a few
+        // millimetres, no linear transition within the cost limit exists, bisection runs out of depth, RRT closes the gap
+        let base_q = |j5: f64| -> Joints { [q0[0], q0[1], q0[2], 0.0, j5, 0.0] };
+        let at = |j5: f64| -> Pose { let p = pose_of(&r, &base_q(j5)); Isometry3::from_parts(Translation3::from(p.translation.vector + Vector3::new(0.0, 0.001, 0.0)), p.rotation) };
+        let cons = Constraints::new([-3.1, -2.0, -2.5, -3.1, -2.2, -3.1], [3.1, 2.0, 1.5, 3.1, 2.2, 3.1], BY_PREV);
+        let robot = KinematicsWithShape::with_safety(p, cons, meshes, box_mesh(0.1, 0.1, 0.02, 1), Isometry3::identity(), box_mesh(0.01, 0.01, 0.02, 1), Isometry3::identity(), env,
+            SafetyDistances::standard(CheckMode::FirstCollisionOnly));
+        return Cell { robot, q0, from: base_q(-0.5), land: at(-0.5), steps: vec![at(-0.35), at(0.35)], park: at(0.5), layout: "wrist" };
+    }
     let (layout_name, obstacle) = match layout % 4 {
         0 => ("free", None),
         1 => ("far", Some((mid + Vector3::new(0.0, 0.0, -0.6), 0.1f32))),
@@ -51,9 +61,10 @@ pub fn make_cell(rng: &mut Rng, layout: u64) -> Cell {
 }
 
 pub fn planner<'a>(cell: &'a Cell, rng: &mut Rng, include: bool) -> Cartesian<'a> {
-    Cartesian { robot: &cell.robot, check_step_m: [0.01, 0.02, 0.05][rng.below(3) as usize], check_step_rad: 0.05,
-        max_transition_cost: [0.05, 0.1, 0.3][rng.below(3) as usize], transition_coefficients: DEFAULT_TRANSITION_COSTS,
-        linear_recursion_depth: [0usize, 2, 6][rng.below(3) as usize], rrt: RRTPlanner { step_size_joint_space: 0.05, max_try: 300, debug: false },
+    let wrist = cell.layout == "wrist";
+    Cartesian { robot: &cell.robot, check_step_m: if wrist { 0.5 } else { [0.01, 0.02, 0.05][rng.below(3) as usize] }, check_step_rad: if wrist { 1.0 } else { 0.05 },
+        max_transition_cost: if wrist { 0.05 } else { [0.05, 0.1, 0.3][rng.below(3) as usize] }, transition_coefficients: DEFAULT_TRANSITION_COSTS,
+        linear_recursion_depth: if wrist { [2usize, 4, 6][rng.below(3) as usize] } else { [0usize, 2, 6][rng.below(3) as usize] }, rrt: RRTPlanner { step_size_joint_space: 0.05, max_try: 300, debug: false },
         include_linear_interpolation: include, debug: false }
 }
 
